@@ -11,7 +11,7 @@ from lib import frames as F
 D = decimal.Decimal
 
 ECUS = ["ECU_A", "ECU_B", "Gw", "Body", "Diag"]
-UNITS = ["", "V", "km/h", "rpm", "degC", "m / s", "rounds per min.", "litres per 100km", "%"]
+UNITS = ["", "V", "km/h", "rpm", "degC", "m / s", "rounds per min.", "litres per 100km", "%", "N/m", "N*m"]
 FACTORS = ["1", "0.5", "0.125", "2", "10", "0.01", "0.001", "1.5", "3", "0.25"]
 OFFSETS = ["0", "0", "-40", "1.5", "100", "-0.5"]
 
